@@ -582,6 +582,8 @@ impl WalkBuilder {
             ig_root: ig_root.clone(),
             ig: ig_root.clone(),
             max_filesize: self.max_filesize,
+            same_file_system: self.same_file_system,
+            root_device: None,
             skip: self.skip.clone(),
             filter: self.filter.clone(),
         }
@@ -915,6 +917,10 @@ pub struct Walk {
     ig_root: Ignore,
     ig: Ignore,
     max_filesize: Option<u64>,
+    same_file_system: bool,
+    /// The device of the root currently being traversed. Only set when
+    /// `same_file_system` is enabled.
+    root_device: Option<u64>,
     skip: Option<Arc<Handle>>,
     filter: Option<Filter>,
 }
@@ -984,6 +990,11 @@ impl Iterator for Walk {
                         }
                         Some((path, Some(it))) => {
                             self.it = Some(it);
+                            self.root_device = if self.same_file_system {
+                                device_num(&path).ok()
+                            } else {
+                                None
+                            };
                             if path.is_dir() {
                                 let (ig, err) = self.ig_root.add_parents(path);
                                 self.ig = ig;
@@ -1012,7 +1023,17 @@ impl Iterator for Walk {
                         Ok(should_skip) => should_skip,
                     };
                     if should_skip {
-                        self.it.as_mut().unwrap().it.skip_current_dir();
+                        // walkdir does not descend into a directory on
+                        // another file system, so there is nothing to skip
+                        // there. Asking it to skip anyway would drop the
+                        // rest of the parent directory instead.
+                        let entered = self.root_device.map_or(true, |dev| {
+                            is_same_file_system(dev, ent.path())
+                                .unwrap_or(true)
+                        });
+                        if entered {
+                            self.it.as_mut().unwrap().it.skip_current_dir();
+                        }
                         // Still need to push this on the stack because
                         // we'll get a WalkEvent::Exit event for this dir.
                         // We don't care if it errors though.
